@@ -235,7 +235,7 @@ var subC07 = &fw.Sub{Name: "c07.partitions", New: func() fw.Case { return &c07Ca
 // line ends, multi-byte characters in strings / comments / as whitespace, and every lexical failure kind.
 var c07Tokens = []string{"var", "x1", "_", "12", "0x1F", "08", "2.5e+3", "1.5", `"a\"b"`, `"é"`, `"é\t"`, "==", "!=", "<=", ">=", "->", "=", "<", "-", "{", "}", "(", ")", ";", ":",
 	"#cé\n", "# \"x\r\n", "\r\n", "\n", "\u0085", " ", " ", "\t",
-	"\u010a", "\u0120", "\u0185", "\u4e0a", "\u20ac", "\U0001F600", "\"\u20ac\U0001F600\"", "#\u20ac\n",
+	"\u010a", "\u0120", "\u0185", "\u4e0a", "\u20ac", "\U0001F600", "\ufeff", "\ufffd", "\u2028", "\"\u20ac\U0001F600\"", "#\u20ac\n",
 	"@", "!", `"abc`, "\"ab\ncd\"", "1.", "1e", "1e+", "1a", "0x1g", `a"`, `"a"b`, "é", "\xC2", "\xff", `"\`}
 
 func init() {
